@@ -10,6 +10,8 @@ CONSTANTS
   Targets <- MCTargets
   EmptyDiffShapes <- MCEmptyDiffShapes
   ClassShapes <- MCClassShapes
+  DeployShapes <- MCDeployShapes
+  CasmV2From = 4
   MaxPending = 2
   MaxSteps = 14
   SuccessionChecked = TRUE
@@ -17,6 +19,10 @@ CONSTANTS
   RootCheckedOnEmptyDiff = TRUE
   TxHashesChecked = TRUE
   WriteBeforeChecks = FALSE
+  DeployGuard = TRUE
+  ExistGuard = TRUE
+  MigrateGuard = TRUE
+  RedeclareGuard = TRUE
 INIT MBTInit
 NEXT MBTNext
 CHECK_DEADLOCK FALSE
